@@ -8,12 +8,17 @@ import (
 	"errors"
 	"flag"
 	"fmt"
+	"net/http"
+	"net/http/httptest"
+	"path"
 	"sort"
+	"sync"
 
 	"github.com/ipni/go-libipni/dhash"
 	"github.com/ipni/go-libipni/find/client"
 	"github.com/ipni/go-libipni/find/model"
 	"github.com/libp2p/go-libp2p/core/peer"
+	b58 "github.com/mr-tron/base58/base58"
 	"github.com/multiformats/go-multihash"
 
 	"verifharness/internal/ids"
@@ -100,7 +105,48 @@ func (s *store) FindMetadata(_ context.Context, hvk []byte) ([]byte, error) {
 	return md, nil
 }
 
-func runCase(tc *tcase, salt int) (got [][]string, panicked string, err error) {
+// the dhstore HTTP transport: one server per process that answers from the store of the case being run
+var (
+	httpStore *store
+	httpOnce  sync.Once
+	httpURL   string
+)
+
+func dhstoreServer() string {
+	httpOnce.Do(func() {
+		mux := http.NewServeMux()
+		mux.HandleFunc("/encrypted/multihash/", func(w http.ResponseWriter, r *http.Request) {
+			mh, err := multihash.FromB58String(path.Base(r.URL.Path))
+			if err != nil {
+				http.Error(w, err.Error(), http.StatusBadRequest)
+				return
+			}
+			res, _ := httpStore.FindMultihash(r.Context(), mh)
+			if len(res) == 0 {
+				http.NotFound(w, r)
+				return
+			}
+			json.NewEncoder(w).Encode(&model.FindResponse{EncryptedMultihashResults: res})
+		})
+		mux.HandleFunc("/metadata/", func(w http.ResponseWriter, r *http.Request) {
+			hvk, err := b58.Decode(path.Base(r.URL.Path))
+			if err != nil {
+				http.Error(w, err.Error(), http.StatusBadRequest)
+				return
+			}
+			md, err := httpStore.FindMetadata(r.Context(), hvk)
+			if err != nil {
+				http.NotFound(w, r)
+				return
+			}
+			json.NewEncoder(w).Encode(map[string][]byte{"EncryptedMetadata": md})
+		})
+		httpURL = httptest.NewServer(mux).URL
+	})
+	return httpURL
+}
+
+func runCase(tc *tcase, salt int, viaHTTP bool) (got [][]string, panicked string, err error) {
 	defer func() {
 		if e := recover(); e != nil {
 			panicked = fmt.Sprint(e)
@@ -151,7 +197,12 @@ func runCase(tc *tcase, salt int) (got [][]string, panicked string, err error) {
 			}
 		}
 	}
-	cl, e := client.NewDHashClient(client.WithDHStoreAPI(st), client.WithMetadataOnly(true))
+	opt := client.WithDHStoreAPI(st)
+	if viaHTTP {
+		httpStore = st
+		opt = client.WithDHStoreURL(dhstoreServer())
+	}
+	cl, e := client.NewDHashClient(opt, client.WithMetadataOnly(true))
 	if e != nil {
 		return nil, "", e
 	}
@@ -339,9 +390,10 @@ func Run(args []string) *rep.Report {
 	file := fs.String("cases", "", "ndjson case table exported by TLC")
 	maxLen := fs.Int("maxlen", 32, "payload lengths 0..maxlen for the primitive sweeps")
 	every := fs.Int("sweep-every", 3, "run the exhaustive truncation / bit-flip sweep on every n-th (length, passphrase) pair")
+	httpEvery := fs.Int("http-every", 4, "run every n-th case also through the dhstore HTTP transport")
 	fs.Parse(args)
 	r := rep.New()
-	idx := 0
+	idx, httpRuns := 0, 0
 	err := rep.ReadNDJSON(*file, func(line []byte) error {
 		tc := new(tcase)
 		if err := json.Unmarshal(line, tc); err != nil {
@@ -352,7 +404,20 @@ func Run(args []string) *rep.Report {
 		if idx%4001 == 0 {
 			r.Sample(tc)
 		}
-		got, pn, err := runCase(tc, idx)
+		if *httpEvery > 0 && idx%*httpEvery == 0 {
+			hgot, hpn, herr := runCase(tc, idx, true)
+			httpRuns++
+			switch {
+			case herr != nil:
+				r.Inconclusive++
+				r.SetExtra("infra_example", herr.Error())
+			case hpn != "":
+				r.Diverge(rep.Divergence{Key: "panic", Case: tc, Detail: "through the dhstore HTTP transport: " + hpn})
+			case canon(hgot) != canon(tc.Out):
+				r.Diverge(rep.Divergence{Key: "find-mismatch-http", Case: tc, Expected: tc.Out, Observed: hgot, Detail: "through the dhstore HTTP transport"})
+			}
+		}
+		got, pn, err := runCase(tc, idx, false)
 		switch {
 		case err != nil:
 			r.Inconclusive++
@@ -376,5 +441,6 @@ func Run(args []string) *rep.Report {
 		r.SetExtra("read_error", err.Error())
 	}
 	r.SetExtra("primitive_checks", primitives(r, *maxLen, *every))
+	r.SetExtra("cases_through_http_transport", httpRuns)
 	return r
 }
